@@ -9,7 +9,7 @@ for n in os.listdir(src):
     p = os.path.join(src, n)
     if os.path.isdir(p):
         shutil.copytree(p, os.path.join(dst, n), dirs_exist_ok=True)
-    elif os.path.getsize(p) < 200000 and not n.endswith(".mmm"):
+    elif os.path.getsize(p) < 200000 and (not n.endswith(".mmm") or n.endswith(".transpiled.mmm")):
         shutil.copy(p, os.path.join(dst, n))
 json.dump(meta, open(os.path.join(dst, "meta.json"), "w"), indent=1)
 print("saved", dst, sorted(os.listdir(dst)))
